@@ -132,3 +132,75 @@ func VerifH_C01_QuestionAnyLength() {
 	verifrt.Reach("ok")
 	verifrt.Assert(q != nil && off2 > off && off2 <= len(msg), "cursor advanced and inside the buffer")
 }
+
+// ---- the four section loops of Msg.Unpack for ANY section counts (0..65535 each) and any buffer length
+
+// vRecordContract / vQuestionContract: what VerifH_C01_RecordAnyLength / QuestionAnyLength establish about the two
+// element decoders at any offset of any buffer: they fail, or return an element and a cursor with off < off' <= len.
+func vRecordContract(msg []byte, off int) (Resource, int, error) {
+	verifrt.Assert(off >= 0 && off <= len(msg), "unpackResource is only called with a cursor inside the buffer")
+	if verifrt.Bool("rec.fails") {
+		return nil, off, errBaseLen
+	}
+	adv := verifrt.IntRange("rec.adv", 11, 65535)
+	verifrt.Assume(off+adv <= len(msg))
+	return NewRaw(), off + adv, nil
+}
+
+func vQuestionContract(msg []byte, off int) (*Question, int, error) {
+	verifrt.Assert(off >= 0 && off <= len(msg), "unpackQuestion is only called with a cursor inside the buffer")
+	if verifrt.Bool("q.fails") {
+		return nil, off, errBaseLen
+	}
+	adv := verifrt.IntRange("q.adv", 5, 259)
+	verifrt.Assume(off+adv <= len(msg))
+	return NewQuestion(), off + adv, nil
+}
+
+// VerifH_C01_SectionLoopStep: loop k (shard: 0 questions, 1 answers, 2 authorities, 3 additionals) of Msg.Unpack,
+// for every buffer of 12..65535 octets and every declared count 0..65535: from ANY loop state satisfying the
+// invariant  0 <= i <= count_k  ∧  12 <= off <= len(msg)  one iteration (element decoder replaced by its contract)
+// never panics, keeps the invariant and increases i (so the loop ends after at most count_k <= 65535 iterations,
+// in fact after at most len(msg)/5 because every element consumes octets); on exit the cursor still satisfies the
+// next loop's invariant. The loop is reached with the EARLIER sections empty — their own iterations are the subject
+// of the lower shards, and the cursor they leave behind is covered by havocking `off` — and left with the LATER
+// sections empty (the function then returns nil at once).
+func VerifH_C01_SectionLoopStep_S4() {
+	verifrt.SymbolicMemory()
+	verifrt.Unwind(40)
+	verifrt.Redirect("github.com/IrineSistiana/mosproxy/internal/dnsmsg.unpackResource", vRecordContract)
+	verifrt.Redirect("github.com/IrineSistiana/mosproxy/internal/dnsmsg.unpackQuestion", vQuestionContract)
+	k := verifrt.Shard()
+	msg := verifrt.BytesUF("msg", 65535)
+	verifrt.Assume(len(msg) >= 12)
+	for j := 0; j < 4; j++ {
+		if j != k {
+			verifrt.Assume(msg[4+2*j] == 0 && msg[5+2*j] == 0)
+		}
+	}
+	count := int(msg[4+2*k])<<8 | int(msg[5+2*k])
+	m := NewMsg()
+	phi := []string{"i#0", "i#1", "i#2", "i#3"}[k]
+	st := verifrt.LoopEnter("(*github.com/IrineSistiana/mosproxy/internal/dnsmsg.Msg).Unpack", phi, m, msg)
+	verifrt.Assert(st == 0, "the loop header is reached")
+	verifrt.Assert(verifrt.LoopPhiInt("i") == 0 && verifrt.LoopPhiInt("off") == 12, "base case: i = 0, cursor right after the header")
+	i := verifrt.IntRange("i", 0, 65535)
+	off := verifrt.IntRange("off", 0, 70000)
+	verifrt.Assume(i <= count && off >= 12 && off <= len(msg))
+	verifrt.LoopSetInt("i", i)
+	verifrt.LoopSetInt("off", off)
+	if verifrt.LoopNext() == 0 {
+		verifrt.Reach("iterated")
+		i2, off2 := verifrt.LoopPhiInt("i"), verifrt.LoopPhiInt("off")
+		verifrt.Assert(i < count, "the body only runs while elements are owed")
+		verifrt.Assert(i2 == i+1 && i2 <= count, "i advances by one and stays within the declared count")
+		verifrt.Assert(off2 > off && off2 <= len(msg), "the cursor advances and stays inside the buffer")
+		return
+	}
+	if verifrt.LoopRetIsNil(0) {
+		verifrt.Reach("section-complete")
+		verifrt.Assert(i == count, "the loop is left exactly when the declared number of elements was decoded")
+	} else {
+		verifrt.Reach("rejected")
+	}
+}
